@@ -17,8 +17,10 @@
       which of the two applies to the current source is decided from the
       translator's extraction in Caco/BuildSessionGen.v) or [MemoKept] (made
       once per Builder and reused);
-    - [srun] runs a history of operations, builds and [SNewBuilder]
-      (the Builder is replaced) on one session.
+    - [srun] runs a history of operations, builds, [SNewBuilder] (the
+      Builder is replaced) and [SWipeOut] (the whole out/ directory, the
+      sqlite file out/CACHE included, is removed) on one session; [wrun] is
+      the same history as seen by Builders that hold nothing.
 
     Caco/BuildSessionProofs.v: under [MemoPerBuild] every history on one
     long-lived Builder is, step by step, the history [Build.run] of the
@@ -92,7 +94,8 @@ Record session := mkS { s_world : world; s_held : memo }.
 
 Inductive sop :=
 | SOp (o : op)        (* an operation of Build.v; a build is a Build call on THIS Builder *)
-| SNewBuilder.        (* the Builder is dropped and a new one made *)
+| SNewBuilder         (* the Builder is dropped and a new one made *)
+| SWipeOut.           (* rm -rf out/ : every output and the cache file out/CACHE *)
 
 Definition sbuild (p : memo_policy) (always : bool) (ts : list name) (s : session)
   : session * list name * bres :=
@@ -105,6 +108,7 @@ Definition sstep (p : memo_policy) (s : session) (o : sop)
   : session * option (list name * bres) :=
   match o with
   | SNewBuilder => (mkS (s_world s) [], None)
+  | SWipeOut => (mkS (clean (s_world s)) (s_held s), None)
   | SOp (OBuild ts) =>
       match sbuild p false ts s with (s', ex, r) => (s', Some (ex, r)) end
   | SOp (OBuildAlways ts) =>
@@ -125,23 +129,48 @@ Fixpoint srun (p : memo_policy) (h : list sop) (s : session)
       end
   end.
 
-(** The history of Build.v underneath a session history. *)
+(** The same history for Builders that hold nothing between Build calls
+    (a new Builder per build): a function of the world alone. *)
+Definition wstep (w : world) (o : sop) : world :=
+  match o with
+  | SOp o' => step w o'
+  | SNewBuilder => w
+  | SWipeOut => clean w
+  end.
+
+Definition wrun (h : list sop) (w : world) : world := fold_left wstep h w.
+
+(** What its builds execute and how they end. *)
+Fixpoint wtrace (h : list sop) (w : world) : list (list name * bres) :=
+  match h with
+  | [] => []
+  | SOp (OBuild ts) :: r =>
+      match build_with false ts w with (w', ex, res) => (ex, res) :: wtrace r w' end
+  | SOp (OBuildAlways ts) :: r =>
+      match build_with true ts w with (w', ex, res) => (ex, res) :: wtrace r w' end
+  | o :: r => wtrace r (wstep w o)
+  end.
+
+(** Without [SWipeOut] it is a history of Build.v. *)
 Fixpoint plain (h : list sop) : list op :=
   match h with
   | [] => []
   | SOp o :: r => o :: plain r
-  | SNewBuilder :: r => plain r
+  | _ :: r => plain r
   end.
 
-(** What the builds of a Build.v history execute and how they end. *)
-Fixpoint trace (h : list op) (w : world) : list (list name * bres) :=
+Definition no_wipeb (h : list sop) : bool :=
+  forallb (fun o => match o with SWipeOut => false | _ => true end) h.
+
+(** every build of the history stays in the theorems' scope ([scopeb]) *)
+Fixpoint shist_in_scopeb (h : list sop) (w : world) : bool :=
   match h with
-  | [] => []
-  | OBuild ts :: r =>
-      match build_with false ts w with (w', ex, res) => (ex, res) :: trace r w' end
-  | OBuildAlways ts :: r =>
-      match build_with true ts w with (w', ex, res) => (ex, res) :: trace r w' end
-  | o :: r => trace r (step w o)
+  | [] => true
+  | o :: r =>
+      match o with
+      | SOp (OBuild ts) | SOp (OBuildAlways ts) => build_in_scopeb ts w
+      | _ => true
+      end && shist_in_scopeb r (wstep w o)
   end.
 
 Definition new_session (rs : list rule) (src : list (name * stat)) : session :=
